@@ -183,6 +183,19 @@ theorem direct_one_sampler_per_image (ps : List (String × String)) (k₁ k₂ i
   rw [a] at b; exact Option.some.inj b
 
 open Pyc.DirectTex in
+/-- the same from any state in which scope and parameter list agree (an effect that already holds
+    parameters, or the loop resumed after any prefix of the properties): maps made earlier and maps made
+    later that name one image hold one sampler, and ids stay unique -/
+theorem direct_one_sampler_from_any_state (s : St) (hs : Inv s) (ps : List (String × String))
+    (k₁ k₂ im : String) (u₁ u₂ : Nat)
+    (h₁ : (k₁, im, u₁) ∈ (ps.foldl step s).maps) (h₂ : (k₂, im, u₂) ∈ (ps.foldl step s).maps) :
+    u₁ = u₂ ∧ ((ps.foldl step s).params.map (·.1)).Nodup := by
+  have i := inv_foldl ps s hs
+  have a := i.maps_scope k₁ im u₁ h₁
+  have b := i.maps_scope k₂ im u₂ h₂
+  rw [a] at b; exact ⟨Option.some.inj b, i.nodup⟩
+
+open Pyc.DirectTex in
 /-- … that sampler is THE parameter of the effect carrying the id, and no id is carried by two parameters -/
 theorem direct_sampler_is_the_param (ps : List (String × String)) :
     ((run ps).params.map (·.1)).Nodup ∧
